@@ -6,10 +6,12 @@ Correspondence, per case (language, configuration, Rust source):
     extracted model (`gen_src`) on the same source; the bytes must be equal (fidelity is decisive here);
   * the judgement runs on the REAL bytes: the extracted Gallina lexer of the language (c10_lex), the
     extracted keyword predicates (good_C10_kw, good_C10_swift_labels) on the declaring positions that
-    lib/extract.py finds in the real text, and the grammar validators: the extracted Gallina recogniser of
-    the TypeScript declaration grammar (Spec/C10TsGrammar.v), the extracted Gallina recogniser of the Go declaration grammar
-    (Spec/C10GoGrammar.v: tokenizer with semicolon insertion + recursive descent, run on every real Go file), CPython ast.parse + a declaration grammar over
-    its AST + import against lib/pydantic_stub for Python, the template recognisers of lib/extract.py
+    lib/extract.py finds in the real text, and the grammar validators: the extracted Gallina recognisers of the
+    table GRAMMAR below - of the TypeScript declaration grammar (Spec/C10TsGrammar.v), of the Go declaration grammar
+    (Spec/C10GoGrammar.v: tokenizer with semicolon insertion + recursive descent, run on every real Go file), of the Kotlin
+    declaration grammar (Spec/C10KtGrammar.v, on every real Kotlin file, single-file and folder mode) and of the Swift
+    declaration grammar (Spec/C10SwGrammar.v: tokenizer + recursive descent, run on every real Swift file) -, CPython ast.parse
+    + a declaration grammar over its AST + import against lib/pydantic_stub for Python, the template recognisers of lib/extract.py
     (nothing unparsed, no anomaly) for all six, plus `= _` in a Scala parameter list;
   * dom_C10 / known_C10 (extracted) on the IR the REAL parser produced classify the case.
 Also lexed: every snapshot expectation file of /repo/core/data/tests."""
@@ -24,16 +26,57 @@ XCHECK = []        # (lang, real text, extracted lexer verdict) samples for the 
 COLLISIONS = []    # Python Enum classes with two members of the same name (naming collision: C02)
 NAME_ERRORS = []   # Python modules that only import after an unbound name is pre-bound (name resolution: C09 / C11 / C12)
 
+# The extracted Gallina recognisers of the declaration grammars: language -> (driver command, failure kind, specification).
+# (CMD TEXT) answers `(some nN)` (N declarations recognised) or `none` (rejected).  judge(), phase_folder(), lex_expectations()
+# and replay() all go through grammar_verdicts(): a further language is ONE more line here (plus its PREDICTS entries, if a
+# finding class of the unchanged tree makes its recogniser reject).
+GRAMMAR = {
+    'typescript': ('c10_ts_parse', 'ts-grammar', 'Spec/C10TsGrammar.v'),
+    'go': ('c10_go_parse', 'go-grammar', 'Spec/C10GoGrammar.v'),
+    'kotlin': ('c10_kt_parse', 'kt-grammar', 'Spec/C10KtGrammar.v'),
+    'swift': ('c10_sw_parse', 'sw-grammar', 'Spec/C10SwGrammar.v'),
+}
+# recognisers that only know single-file output: the TypeScript grammar of Spec/C10TsGrammar.v has no import statement (the
+# import blocks of folder-mode files are judged by import_block_grammar below); the others parse their folder-mode files too
+GRAMMAR_NOT_IN_FOLDER_MODE = {'typescript'}
+LANG_NAME = {'typescript': 'TypeScript', 'kotlin': 'Kotlin', 'swift': 'Swift', 'scala': 'Scala', 'go': 'Go', 'python': 'Python'}
+
+
+def grammar_verdicts(pairs):
+    """pairs: [(lang, text)] -> one verdict per pair: None (no recogniser for the language), True (accepted), False (rejected);
+    one batch of driver calls for all languages"""
+    pairs = list(pairs)
+    at = [i for i, (l, _) in enumerate(pairs) if l in GRAMMAR]
+    out = [None] * len(pairs)
+    for i, a in zip(at, vf.model([f'({GRAMMAR[pairs[i][0]][0]} {S(pairs[i][1])})' for i in at])):
+        out[i] = a != 'none'
+    return out
+
+
+def grammar_judge(chk, lang, verdict, fails, why, where='', counter=''):
+    """the verdict of grammar_verdicts on one text -> failure kind + reason appended, or the per-language counter of accepted texts
+    (ts_grammar_accepted, go_grammar_accepted, kt_grammar_accepted ...; `counter` = suffix, e.g. _folder)"""
+    if verdict is None:
+        return
+    cmd, kind, spec = GRAMMAR[lang]
+    if verdict:
+        if chk is not None:
+            chk.count(kind.replace('-', '_') + '_accepted' + counter)
+        return
+    fails.append(kind)
+    why.append(f'{where}the extracted recogniser of the {LANG_NAME[lang]} declaration grammar ({spec}) rejects the text')
+
+
 # what each finding class predicts to fail (a failure of another kind on a case of the class is NEW)
 # (C10-scala-package-brace - `}` without opener under a dotless Scala package - was repaired in /repo: no entry, nothing is
 #  suppressed; its witness stays in WITNESSES below and must pass, dotless packages stay in configs(): a regression is a violation)
 PREDICTS = {
     'C10-scala-default': {'scala-default'},
-    'C10-swift-label': {'swift-label'},
+    'C10-swift-label': {'swift-label', 'sw-grammar'},
     'C10-python-generic-alias': {'py-grammar', 'py-import-at-generic-alias'},
     'C10-python-empty-union': {'py-syntax'},
     'C10-python-digit-name': {'py-syntax', 'identifier', 'template'},
-    'C10-digit-name': {'identifier', 'template', 'ts-grammar', 'go-grammar'},
+    'C10-digit-name': {'identifier', 'template', 'ts-grammar', 'go-grammar', 'kt-grammar', 'sw-grammar'},
     'C10-python-generic-enum-arg': {'py-import-not-subscriptable'},
     'C10-go-keyword-name': {'go-grammar'},
 }
@@ -404,7 +447,7 @@ def judge(chk, cases, tag):
     """cases: list of (lang, cfg, src, meta). Runs both sides, judges the real bytes."""
     res = back.run_src([(l, c, s, []) for l, c, s, _ in cases])
     # extracted judgements on the real bytes / real IR
-    lexq, clsq, kwq, tsq, goq, idx = [], [], [], [], [], []
+    lexq, clsq, kwq, gocq, idx = [], [], [], [], []
     obs = {}
     for k, (r, (lang, cfg, src, meta)) in enumerate(zip(res, cases)):
         if r['impl'][0] != 'ok':
@@ -415,19 +458,17 @@ def judge(chk, cases, tag):
         clsq.append(f'(c10_cls {lang} {S(cfg.get("package", ""))} {back.items_sx(r["ir"])})')
         obs[k] = observe(lang, text)
         kwq.append(kw_request(lang, obs[k][0], obs[k][1]))
-        if lang == 'typescript':
-            tsq.append((k, f'(c10_ts_parse {S(text)})'))
-        if lang == 'go':
-            goq.append((k, f'(c10_go_parse {S(text)})'))
-            goq.append((('cls', k), f'(c10_go_cls {back.items_sx(r["ir"])})'))
+        if lang == 'go':       # Go's own classifier: the finding class of the Go declaration grammar, on the IR the REAL parser produced
+            gocq.append((k, f'(c10_go_cls {back.items_sx(r["ir"])})'))
     cfgkeys = sorted(set((cases[k][0], json.dumps(cases[k][1], sort_keys=True)) for k in idx))
     cfgq = [f'(c10_cfg {l} {back.cfg_sx(json.loads(c))})' for l, c in cfgkeys]
-    goa = dict(zip([k for k, _ in goq], vf.model([q for _, q in goq])))
-    ans = vf.model(lexq + clsq + kwq + [q for _, q in tsq] + cfgq)
+    gocls = dict(zip([k for k, _ in gocq], vf.model([q for _, q in gocq])))
+    ans = vf.model(lexq + clsq + kwq + cfgq)
+    # the extracted recognisers of the declaration grammars (table GRAMMAR) on every real file of their language
+    gra = dict(zip(idx, grammar_verdicts((cases[k][0], res[k]['impl'][1]) for k in idx)))
     n = len(idx)
     lexa, clsa, kwa = ans[:n], ans[n:2 * n], ans[2 * n:3 * n]
-    tsa = dict(zip([k for k, _ in tsq], ans[3 * n:3 * n + len(tsq)]))
-    cfg_ok = dict(zip(cfgkeys, [a == 'true' for a in ans[3 * n + len(tsq):]]))
+    cfg_ok = dict(zip(cfgkeys, [a == 'true' for a in ans[3 * n:]]))
     # the model's own observation of the declaring positions (extractor self-check + correspondence)
     srcs = sorted(set(cases[k][2] for k in idx))
     asts = dict(zip(srcs, vf.impl([{'cmd': 'ast', 'src': s} for s in srcs])))
@@ -450,7 +491,7 @@ def judge(chk, cases, tag):
         dom = vf.sx_get(clsa[j], 'dom') == 'true' and cfg_ok[(lang, json.dumps(cfg, sort_keys=True))]
         if not cfg_ok[(lang, json.dumps(cfg, sort_keys=True))]:
             chk.count('inadmissible_configuration')
-        known = list(vf.sx_get(clsa[j], 'known')) + list(goa.get(('cls', k), []))
+        known = list(vf.sx_get(clsa[j], 'known')) + list(gocls.get(k, []))
         decls, labels, fails, why = obs[k]
         fails = list(fails)
         lex = lexa[j]
@@ -460,12 +501,7 @@ def judge(chk, cases, tag):
             fails.append('lex')
             pos = int(lex[1][1:]) if lex[0] == 'error' else len(text)
             why.append(f'lexer: {lex[0]} at offset {pos} in state {vf.dump_sx(lex[-1])}: ...{text[max(0, pos - 40):pos + 10]!r}')
-        if k in tsa and tsa[k] == 'none':
-            fails.append('ts-grammar')
-            why.append('the extracted recogniser of the TypeScript declaration grammar (Spec/C10TsGrammar.v) rejects the text')
-        if k in goa and goa[k] == 'none':
-            fails.append('go-grammar')
-            why.append('the extracted recogniser of the Go declaration grammar (Spec/C10GoGrammar.v) rejects the text')
+        grammar_judge(chk, lang, gra[k], fails, why)
         if vf.sx_get(kwa[j], 'kw') != 'true':
             fails.append('keyword')
             why.append('a declared name that is a keyword of the language is not escaped')
@@ -622,12 +658,10 @@ def phase_folder(chk, n):
                 continue
             files = {f.name: f.read_text(errors='replace') for f in sorted(out.iterdir()) if f.is_file()}
             lex = vf.model([f'(c10_lex {lang} {S(t)})' for t in files.values()])
-            gog = vf.model([f'(c10_go_parse {S(t)})' for t in files.values()]) if lang == 'go' else [None] * len(files)
-            for (fn, t), lx, gg in zip(files.items(), lex, gog):
+            gra = grammar_verdicts((lang, t) for t in files.values()) if lang not in GRAMMAR_NOT_IN_FOLDER_MODE else [None] * len(files)
+            for (fn, t), lx, gv in zip(files.items(), lex, gra):
                 fails, why = [], []
-                if gg == 'none':
-                    fails.append('go-grammar')
-                    why.append(f'{fn}: rejected by the extracted recogniser of the Go declaration grammar (Spec/C10GoGrammar.v)')
+                grammar_judge(chk, lang, gv, fails, why, where=f'{fn}: ', counter='_folder')
                 if lx[0] != 'balanced':
                     fails.append('lex')
                     why.append(f'lexer: {lx[0]} in {fn}')
@@ -663,28 +697,23 @@ WITNESSES = [
 
 def lex_expectations(chk):
     """the snapshot expectation files are themselves judged (an ill-formed expectation is a finding): extracted
-    lexer, template recogniser, CPython parser / declaration grammar / import"""
+    lexer, extracted recogniser of the declaration grammar (table GRAMMAR), template recogniser, CPython parser /
+    declaration grammar / import"""
     files = []
     for lang in LANGS:
         files += [(lang, f) for f in sorted(glob.glob(str(vf.REPO / 'core' / 'data' / 'tests' / '*' / f'output.{EXT[lang]}')))]
     texts = [open(f, encoding='utf-8').read() for _, f in files]
     ans = vf.model([f'(c10_lex {l} {S(t)})' for (l, _), t in zip(files, texts)])
-    tsans = vf.model([f'(c10_ts_parse {S(t)})' for (l, _), t in zip(files, texts) if l == 'typescript'])
-    tsit = iter(tsans)
-    goit = iter(vf.model([f'(c10_go_parse {S(t)})' for (l, _), t in zip(files, texts) if l == 'go']))
+    gra = grammar_verdicts((l, t) for (l, _), t in zip(files, texts))
     blame = {'scala-default': 'C10-scala-default', 'py-grammar': 'C10-python-generic-alias'}
-    for (lang, f), t, a in zip(files, texts, ans):
+    for (lang, f), t, a, gv in zip(files, texts, ans, gra):
         chk.count('expectation_files')
         decls, labels, fails, why = observe(lang, t)
         if a[0] != 'balanced':
             fails = fails + ['lex']
             why = why + [vf.dump_sx(a)]
-        if lang == 'typescript' and next(tsit) == 'none':
-            fails = fails + ['ts-grammar']
-            why = why + ['rejected by the extracted TypeScript recogniser']
-        if lang == 'go' and next(goit) == 'none':
-            fails = fails + ['go-grammar']
-            why = why + ['rejected by the extracted recogniser of the Go declaration grammar']
+        fails, why = list(fails), list(why)
+        grammar_judge(chk, lang, gv, fails, why, counter='_expectation')
         name = pathlib.Path(f).parent.name
         for k in fails:
             if k == 'py-grammar' and not any('Subscript' in w for w in why):
@@ -705,7 +734,8 @@ def run(chk):
     chk.assumptions = [
         'the six lexers of Spec/C10Spec.v are the definition of "delimiters, string literals and comments are closed" (no compiler of the five non-Python languages is installed)',
         'the Go declaration grammar is the recogniser of Spec/C10GoGrammar.v (written from the language specification; function bodies are only checked to be balanced token runs)',
-        'grammar conformance is validated, not proved: CPython ast.parse + import against lib/pydantic_stub for Python; template recognisers of lib/extract.py for the others',
+        'the Swift declaration grammar is the recogniser of Spec/C10SwGrammar.v (written from the Summary of the Grammar of The Swift Programming Language; the bodies of init / func are only checked to be balanced token runs; line breaks are admitted between declarations / members, after `{`, before `}` and after a comma of a case / parameter list only)',
+        'grammar conformance of ' + ', '.join(LANG_NAME[l] for l in GRAMMAR) + ' files is judged by the extracted Gallina recognisers of their declaration grammars (' + ', '.join(g[2] for g in GRAMMAR.values()) + '; proved in Props/C10.v to accept what the models print, on the domain of each theorem); for the others it is validated, not proved: CPython ast.parse + import against lib/pydantic_stub for Python; template recognisers of lib/extract.py for the others',
         'doc text is restricted to the safe predicate c10_doc_ok (doc-induced breakage is C15)',
         'a Python NameError at import is name resolution (C09 / C11 / C12) and a duplicate Enum member name is a naming collision (C02): both counted, not judged here; any other import failure is judged',
     ]
@@ -802,9 +832,11 @@ def replay(chk, path):
         print('lexer verdict  :', vf.dump_sx(lex))
         print('classification :', vf.dump_sx(cls))
         print('keywords       :', vf.dump_sx(kw))
-        if d['lang'] == 'go' and vf.model([f'(c10_go_parse {S(text)})'])[0] == 'none':
-            fails = fails + ['go-grammar']
-            why = why + ['rejected by the extracted recogniser of the Go declaration grammar (Spec/C10GoGrammar.v)']
+        fails, why = list(fails), list(why)
+        gv = grammar_verdicts([(d['lang'], text)])[0]
+        if gv is not None:
+            print(f'{LANG_NAME[d["lang"]]} grammar'.ljust(15) + ':', 'accepted' if gv else 'REJECTED', f'({GRAMMAR[d["lang"]][0]}, {GRAMMAR[d["lang"]][2]})')
+        grammar_judge(None, d['lang'], gv, fails, why)
         print('grammar        :', fails, why)
         bad = lex[0] != 'balanced' or fails or vf.sx_get(kw, 'kw') != 'true' or vf.sx_get(kw, 'labels') != 'true'
         return 1 if bad else 0
